@@ -1,9 +1,10 @@
 (* C08 -- reported progress always matches the batches that really finished. *)
 From XV Require Import Prelude Grid Perm Runner Batch Crop GenReap BridgeReap
      GridProofs PermProofs RunnerProofs BatchProofs AssocProofs CropProofs ReapProofs ProgressProofs.
+From XV Require Sched GenPublish BridgePublish.
 Open Scope Z_scope.
 
-(* after ANY history of grows (with any failures), result deletions, check_bad and re-sows of
+(* after ANY history of grows (with any failures of the function or of the result write), result deletions, check_bad and re-sows of
    the same sweep, every result file on disk is the whole, correct result of its own batch,
    and the batch files are exactly 1..B *)
 Theorem C08_inv : forall (R : Type) (g : kwargs -> R) (i : input) bl (d0 : @disk R) (ops : list dop),
@@ -22,7 +23,7 @@ Theorem C08_finished_history : forall (R : Type) (g : kwargs -> R) (i : input) b
       | Err _ => finished d j
       end
   | DDelete k => if j =? k then false else finished d j
-  | DCheckBad | DResow => finished d j
+  | DCheckBad | DResow | DGrowWriteFails _ => finished d j
   end.
 Proof. intros R g i bl d o j HI. exact (dstep_finished g i bl d o j HI). Qed.
 
@@ -77,12 +78,30 @@ Theorem C08_sow_establishes : forall (R : Type) (g : kwargs -> R) (i : input) bs
   exists bl, Inv g i bl d' /\ d_results d' = [] /\ bl <> [] /\ o' = reload d'.
 Proof. intros. eapply sow_establishes; eassumption. Qed.
 
+(* a grow whose result write fails leaves progress untouched: the model's grow is all-or-nothing because the
+   result file is published by one rename after it has been written and closed under a temporary name that
+   the progress listing does not match (the publication protocol is regenerated from write_to_disk and is
+   the atomic one of Model/Sched.v; C11 proves over every interleaving that a visible result is whole) *)
+Theorem C08_failed_write_not_recorded : forall (R : Type) (g : kwargs -> R) (i : input) bl (d : @disk R) k j,
+  Inv g i bl d ->
+  finished (dstep g i d (DGrowWriteFails k)) j = finished d j /\ Inv g i bl (dstep g i d (DGrowWriteFails k)).
+Proof. intros. split; [reflexivity|assumption]. Qed.
+
+Theorem C08_publication_tie :
+  GenPublish.gen_publish = Sched.publish_atomic /\ GenPublish.gen_grow_shape = Sched.grow_shape_model
+  /\ GenPublish.gen_query_ops = Sched.query_ops_model.
+Proof.
+  exact (conj BridgePublish.bridge_publish (conj BridgePublish.bridge_grow_shape BridgePublish.bridge_query_ops)).
+Qed.
+
 (* tie to the code: the ready test, the missing range/predicate regenerated from cropping.py *)
 Theorem C08_code_tie :
   (forall nr ns, gen_is_ready nr ns = (0 <? nr) && (nr =? ns))
   /\ (forall nb e, gen_missing_range nb = (1, nb + 1) /\ gen_no_result e = negb e).
 Proof. exact (conj bridge_is_ready bridge_missing). Qed.
 
+Print Assumptions C08_failed_write_not_recorded.
+Print Assumptions C08_publication_tie.
 Print Assumptions C08_inv.
 Print Assumptions C08_finished_history.
 Print Assumptions C08_observations.
